@@ -30,7 +30,6 @@ import sysconfig
 import textwrap
 import time
 import tokenize
-import unicodedata
 
 from vlib.ctx import Infra, TemplateMismatch
 
@@ -89,7 +88,8 @@ def scenic_compile(src, filename="<chunk>"):
 from translate import pytree  # noqa: E402
 from translate.pytree import Rejected, canon, ident, mirror_compile, tokens  # noqa: E402
 
-_cfg = {}          # rewrite data (set by run / worker init)
+_cfg = {}          # the DOCUMENTED rewrite data: what the oracle expects (set by run / worker init)
+_cfg_gen = {}      # the rewrite data extracted from compiler.py: what the Lean model runs on (correspondence only)
 _words = {}        # keyword sets from the grammar
 
 
@@ -156,58 +156,14 @@ def idents_in(t, acc):
     return acc
 
 
-ESC = re.compile(r"\\(\n|[\\'\"abfnrtv]|[0-7]{1,3}|x[0-9a-fA-F]{2}|N\{[^}]+\}|u[0-9a-fA-F]{4}|U[0-9a-fA-F]{8})")
-
-
-def decode_escapes(s):
-    def rep(m):
-        try:
-            return ast.literal_eval('"' + m.group(0) + '"')
-        except Exception:
-            return m.group(0)
-    return ESC.sub(rep, s)
-
-
 def mismatch_key(m, gvals, evals):
     """stable identity of one difference: the construct, not the file"""
     at, got, exp = m["at"], m["got"], m["exp"]
     gtag = got[1] if isinstance(got, tuple) and got[0] == "N" else None
     etag = exp[1] if isinstance(exp, tuple) and exp[0] == "N" else None
-    # --- f-strings (several independent defects of the Python >= 3.12 token path)
-    if at == "Constant.value" and isinstance(got, str) and isinstance(exp, str) and got in gvals and exp in evals:
-        g, e = gvals[got], evals[exp]
-        if isinstance(g, str) and isinstance(e, str):
-            dg = decode_escapes(g)
-            if dg == e:
-                return "fstring:escape-sequence-not-decoded"
-            if e.startswith(dg) and e.rstrip().endswith("="):
-                # the text of a `{expr=}` field was merged into the preceding literal by CPython and is missing here
-                return "fstring:debug-specifier-text-dropped"
-            if unicodedata.normalize("NFKC", g) == e:
-                return "identifier-not-nfkc-normalised"
-    if at == "JoinedStr.values" and m["kind"] in ("length", "tag"):
-        ev = exp[1] if exp[0] == "L" else [exp]
-        gv = got[1] if got[0] == "L" else [got]
-        etxt = [evals.get(x[3][0]) for x in ev if isinstance(x, tuple) and x[0] == "N" and x[1] == "Constant"]
-        gtxt = [gvals.get(x[3][0]) for x in gv if isinstance(x, tuple) and x[0] == "N" and x[1] == "Constant"]
-        efv = sum(1 for x in ev if isinstance(x, tuple) and x[0] == "N" and x[1] == "FormattedValue")
-        gfv = sum(1 for x in gv if isinstance(x, tuple) and x[0] == "N" and x[1] == "FormattedValue")
-        if efv == gfv and any(isinstance(s, str) and s.rstrip().endswith("=") for s in etxt) and len(ev) > len(gv):
-            return "fstring:debug-specifier-text-dropped"
-        if any(isinstance(s, str) and ("{" in s or "}" in s) for s in etxt):
-            return "fstring:doubled-brace-before-replacement-field"
-        return "fstring:values-differ"
-    if at == "FormattedValue.conversion":
-        return "fstring:debug-specifier-conversion-with-format-spec"
-    # --- identifiers
-    if isinstance(got, str) and isinstance(exp, str) and ident(got) is not None and ident(exp) is not None:
-        if unicodedata.normalize("NFKC", ident(got)) == ident(exp):
-            return "identifier-not-nfkc-normalised"
     # --- Scenic operators shadowing Python ones
     if etag == "BinOp" and gtag == "Call" and is_matmul(exp):
         return "matmul-operator-becomes-Vector"
-    if at in ("List.elts", "Tuple.elts") and got == "~":
-        return "empty-target-elts-None"
     g = gtag or (got if isinstance(got, str) and got == "~" else ("list" if isinstance(got, tuple) else "atom"))
     e = etag or (exp if isinstance(exp, str) and exp == "~" else ("list" if isinstance(exp, tuple) else "atom"))
     return f"diff:{at}:{g}!={e}" if m["kind"] != "loc" else f"lineno:{got[1]}"
@@ -273,15 +229,17 @@ def compare(src, detail=False):
     except RecursionError:
         return {"outcome": "skip:recursion"}
     res = {"nodes": count_nodes(cref)}
+    if why in ("tracked-name-bound", "builtin-name-bound"):
+        # the module binds ego/workspace/globalParameters/str/int/float.  Assigning to ego/workspace is a Scenic statement
+        # with its own documented meaning, binding the others is documented as not allowed ("can be used but not
+        # overwritten"): such a module uses a reserved name as an identifier it defines, which is outside the quantifier
+        # of the property whatever Scenic does with it (accept with Scenic's meaning, or refuse)
+        return dict(res, outcome="excluded:reserved-name-bound", why=why)
     try:
         got = canon(scenic_compile(src), gvals)
     except _real["ParseError"] as e:
         if expect is None:
-            if why == "class-annotation":
-                return dict(res, outcome="SCENIC-REJECTS", msg=str(e)[:200], keys=["reject:class-body-annotated-assignment"])
-            # binding str/int/float/globalParameters/ego/workspace: documented as not allowed ("can be used but not
-            # overwritten"), outside the property like the reserved words
-            return dict(res, outcome="excluded:reserved-name-bound", why=why)
+            return dict(res, outcome="SCENIC-REJECTS", msg=str(e)[:200], keys=["reject:class-body-annotated-assignment"])
         msg = str(e)
         return dict(res, outcome="SCENIC-REJECTS", msg=msg[:200], keys=[reject_key(src, ref, msg)])
     except RecursionError:
@@ -290,8 +248,8 @@ def compare(src, detail=False):
         return dict(res, outcome="SCENIC-CRASH", msg=f"{type(e).__name__}: {str(e)[:200]}",
                     keys=[f"crash:{type(e).__name__}"])
     if expect is None:
-        key = {"class-annotation": "class-body-annotation-becomes-property"}.get(why, "accepted-but-should-reject:" + why)
-        return dict(res, outcome="SCENIC-ACCEPTS", why=why, keys=[key])
+        # why == "class-annotation": by design (known finding)
+        return dict(res, outcome="SCENIC-ACCEPTS", why=why, keys=["class-body-annotation-becomes-property"])
     if got == expect:
         return dict(res, outcome="same")
     ms = []
@@ -316,44 +274,10 @@ def count_nodes(t):
     return 1 + sum(count_nodes(x) for x in t[3])
 
 
-def has_chained_ifexp(ref):
-    """a conditional expression whose else branch is itself a conditional expression or a lambda"""
-    for n in ast.walk(ref):
-        if isinstance(n, ast.IfExp) and isinstance(n.orelse, (ast.IfExp, ast.Lambda)):
-            return True
-    return False
-
-
-def class_subscript_stmt(ref):
-    """a class body statement starting with NAME '[' (Scenic reads it as a property with attributes)"""
-    for n in ast.walk(ref):
-        if isinstance(n, ast.ClassDef):
-            for st in n.body:
-                tgt = None
-                if isinstance(st, ast.Assign):
-                    tgt = st.targets[0]
-                elif isinstance(st, (ast.AugAssign, ast.AnnAssign)):
-                    tgt = st.target
-                elif isinstance(st, ast.Expr):
-                    tgt = st.value
-                while isinstance(tgt, (ast.Subscript, ast.Attribute, ast.Call)):
-                    if isinstance(tgt, ast.Subscript) and isinstance(tgt.value, ast.Name):
-                        return True
-                    tgt = tgt.value if not isinstance(tgt, ast.Call) else tgt.func
-    return False
-
-
 def reject_key(src, ref, msg):
-    m = norm_msg(msg)
-    if "additive" in msg and "dynamic" in msg and class_subscript_stmt(ref):
-        return "reject:class-body-statement-starting-with-subscripted-name"
     if "annotated assignments are not allowed" in msg:
-        return "reject:class-body-annotated-assignment"
-    if msg.strip() == "invalid syntax" or "invalid syntax" in msg:
-        if has_chained_ifexp(ref):
-            # confirm on the smallest failing statement that the chained conditional alone is refused
-            return "reject:conditional-expression-in-else-branch"
-    return "reject:" + m
+        return "reject:class-body-annotated-assignment"      # by design (known finding)
+    return "reject:" + norm_msg(msg)
 
 
 # --------------------------------------------------------------------------- corpus
@@ -640,6 +564,30 @@ CONSTRUCTS = {
     "try": "try:\n    pass\nexcept (A, B) as e:\n    raise X from e\nelse:\n    pass\nfinally:\n    pass\n",
     "try-star": "try:\n    pass\nexcept* G as g:\n    pass\n",
     "with": "with open(a) as f, (b):\n    pass\nwith (open(a) as f, open(b) as g):\n    pass\n",
+    # PEG ordered choice: forms whose prefixes overlap (an alternative moved in front of another changes the tree)
+    "with-paren-no-as": "with (a, b):\n    pass\nwith (a, b,):\n    pass\nwith (\n    open(p),\n    open(q),\n):\n    pass\n",
+    "with-paren-forms": "with (a, b) as c:\n    pass\nwith (a), (b):\n    pass\nwith (a, b), c:\n    pass\nwith (a):\n    pass\nwith (yield):\n    pass\n",
+    "with-async-paren": "async def f():\n    async with (a, b):\n        pass\n    async with (a, b,):\n        pass\n    async with (a as x, b):\n        pass\n",
+    "group-tuple-genexp": "x = (a)\ny = (a,)\nz = (a for a in b)\nf(a for a in b)\nw = ()\nv = (*a, b)\nu = (yield)\nt = (a := 1)\n",
+    "dict-set": "a = {}\nb = {x}\nc = {x: y}\nd = {**x}\ne = {*x}\nf = {x: y, **z}\ng = {x for x in y}\nh = {x: y for x in z}\n",
+    "targets-paren": "del (a, b)\ndel (a)\ndel [a, b]\nfor (a, b) in c:\n    pass\nfor a, in c:\n    pass\n(a) = 1\n(a, b) = c\n*a, = b\n(a.b) = (c[d]) = e\n",
+    "return-forms": "def f():\n    return\n    return a, b\n    return (a, b)\n    return *a, b\n    raise\n    raise E\n",
+    "not-in-is-not": "x = a not in b\ny = not a in b\nz = a is not b\nw = a is (not b)\nv = - -a ** -b\nu = ~a\nt = await_\n",
+    "subscript-forms": "a[b]\na[b,]\na[b:c]\na[b:c, d]\na[:]\na[::]\na[b, c:d:e]\na[(b, c)]\na[b := 1]\n",
+    "soft-keyword-python": "match = 1\nmatch(x)\nmatch[x]\ncase = 2\n_ = 3\nprint(match, case, _)\nmatch x:\n    case case: pass\n",
+    "primary-chain": "a.b(c)[d].e(f)(g)[h:i].j\nx = a.b.c\na(b)(c)\n",
+    "lambda-forms": "a = lambda: 0\nb = lambda x: x\nc = lambda *a: a\nd = lambda x, /, y: x\ne = lambda *, k: k\nf = lambda x=1, *a, **k: x\ng = lambda **k: k\n",
+    "def-params": "def f(a, /, b, *, c): pass\ndef g(*, c=1): pass\ndef h(a=1, /): pass\ndef i(*a: int, **k: str) -> None: pass\ndef j(a, b=2, /, c=3, *d, e, f=6, **g): pass\n",
+    "except-forms": "try:\n    pass\nexcept:\n    pass\ntry:\n    pass\nexcept A:\n    pass\nexcept (B, C):\n    pass\nexcept D as d:\n    pass\ntry:\n    pass\nfinally:\n    pass\n",
+    "assign-forms": "a = b = c\na += 1\na: int\na: int = 1\n(a): int = 1\na.b: int\na[0]: int = 2\na, b = b, a\na = yield_\na = *b, c\n",
+    # locations: calls and literals spread over several lines (the line of an inner node differs from its parent's)
+    "star-call-multiline": "x = [\n    1,\n    f(*a,\n      *b),\n    g(2,\n      *c),\n]\ny = h(1,\n      k(*d))\nz = {\n  'k': m(*\n    e),\n}\n",
+    "star-call-nested-lines": "def f():\n    return [\n        1,\n        g(\n            *a,\n            b,\n            *c\n        ),\n    ]\n",
+    "lifted-multiline": "x = (\n  str(\n    a),\n  int(\n    *b),\n  float(c,\n    d))\ny = [\n  ego,\n  workspace.z,\n  globalParameters,\n]\n",
+    "class-multiline": "@d\nclass C(\n):\n    a = 1\n\n    def f(self):\n        pass\nclass D(metaclass=M):\n    pass\nclass E(B, k=1): pass\nclass F():\n    class G: pass\n",
+    "string-concat-multiline": "x = ('a'\n     'b'\n     f'{c}')\ny = (f'{a}'\n     'b'\n     'c')\nz = ('a'\n     'b')\nw = (b'a'\n     b'b')\n",
+    "multiline-nodes": "x = a.b(\n  c\n).d[\n  e\n]\ny = (a\n  + b\n  * c)\nz = (a if\n  b else\n  c)\nw = [i\n  for i in j\n  if k]\nv = not (\n  a)\nu = a < (\n b) < c\n",
+    "multiline-statements": "if (a and\n    b):\n    pass\nelif c:\n    pass\nelse:\n    pass\nwhile (a\n  ):\n    break\nfor i in (\n  j):\n    continue\ndef f(a,\n      b=(1,\n         2)):\n    pass\n",
     "global-nonlocal": "def f():\n    global a, b\n    def g():\n        nonlocal c\n",
     "comparison": "x = a < b <= c != d is not e not in f\n",
     "slices": "x = a[1:2, ::3, ...]\ny = a[b][c:d]\nz = a[*b]\n",
@@ -864,7 +812,7 @@ def corr_rewrites(ctx, texts):
             continue   # non-ASCII identifiers are opaque atoms for the model; nothing to compare
         lines.append("C09 rw " + " ".join(toks))
         try:
-            exp.append(" ".join(tokens(mirror_compile(_cfg, t))))
+            exp.append(" ".join(tokens(mirror_compile(_cfg_gen or _cfg, t))))
         except Rejected:
             exp.append("reject")
         srcs.append(text)
@@ -944,6 +892,7 @@ def run(ctx):
         gd = gram2lean.extract()
         ctx.gen("Grammar", gram2lean.to_lean(gd))
     except TemplateMismatch as e:
+        ctx.gen_restore("Grammar")
         ctx.escalated.append(f"translator tie lost (grammar): {e}")
         ctx.notes.append(f"scenic.gram could not be transcribed: {e}")
     cfg = None
@@ -951,8 +900,9 @@ def run(ctx):
         cfg = rewrites.extract()
         ctx.gen("RewriteData", rewrites.to_lean(cfg))
     except TemplateMismatch as e:
+        ctx.gen("RewriteData", rewrites.to_lean(rewrites.DEFAULT))    # never a stale file from an earlier run
         ctx.escalated.append(f"translator tie lost (rewrites): {e}")
-        ctx.notes.append(f"compiler.py rewrites could not be extracted ({e}); the documented defaults are used by the harness")
+        ctx.notes.append(f"compiler.py rewrites could not be extracted ({e}); the Lean model runs on the documented defaults")
     ctx.extra["timing"] = {"translate_s": round(time.time() - t0, 1)}
     t0 = time.time()
     pr = ctx.prove(THEOREMS, side_conditions=SIDE)
@@ -966,7 +916,12 @@ def run(ctx):
         ctx.broken("translator", "pegen cannot generate a parser from scenic.gram", log[-600:])
         ctx.resolve_brokens(False)
         return
-    cfg_used = cfg or dict(rewrites.DEFAULT)
+    # the oracle expects the DOCUMENTED constants (accessor names, lifted targets, wrapper names, default base, property
+    # table), never the ones extracted from the code under test: a consistent change of a constant in compiler.py must
+    # show up as a deviation.  The extracted data feed the Lean model (and its mirror in the correspondence run) only.
+    cfg_used = dict(rewrites.DEFAULT)
+    _cfg_gen.clear()
+    _cfg_gen.update(cfg or rewrites.DEFAULT)
     words = {"scenic_hard": (gd or {}).get("scenic_hard") or ["at", "by", "do", "new", "of", "on", "require", "to", "until"],
              "scenic_soft": (gd or {}).get("scenic_soft") or []}
     _init_worker(parser_path, cfg_used, words)
@@ -1059,10 +1014,7 @@ def replay(ctx, path):
     if parser_path is None:
         print("pegen cannot generate the parser:", log[-500:])
         return 1
-    try:
-        cfg = rewrites.extract()
-    except TemplateMismatch:
-        cfg = dict(rewrites.DEFAULT)
+    cfg = dict(rewrites.DEFAULT)
     _init_worker(parser_path, cfg, {"scenic_hard": [], "scenic_soft": []})
     P = _real["P"].ScenicParser
     _init_worker(parser_path, cfg, {"scenic_hard": sorted(set(P.KEYWORDS) - set(keyword.kwlist)),
